@@ -263,27 +263,27 @@ Proof.
 Qed.
 
 (* following references from a live object never panics *)
-Lemma follow_valid : forall fuel s o s' res,
-  cv s -> hget s o <> None -> follow fuel s o = (s', res) ->
+Lemma follow_valid : forall fuel s o lk s' res,
+  cv s -> hget s o <> None -> follow fuel s o lk = (s', res) ->
   (forall e, res <> Panic e) /\ stable s s' /\
-  (forall o', res = Ok o' -> exists ob', hget s' o' = Some ob' /\ r_ref (o_rec ob') = None).
+  (forall o' lk', res = Ok (o', lk') -> exists ob', hget s' o' = Some ob' /\ r_ref (o_rec ob') = None).
 Proof.
-  induction fuel as [|f IH]; intros s o s' res Hcv Hne HF; simpl in HF;
+  induction fuel as [|f IH]; intros s o lk s' res Hcv Hne HF; simpl in HF;
     destruct (hget s o) as [ob|] eqn:Ho; try congruence.
   - destruct (r_ref (o_rec ob)) eqn:Er; injection HF as <- <-; (split; [discriminate|]; split; [apply stable_refl|]);
-      intros o' E; try discriminate. injection E as <-. exists ob. auto.
+      intros o' lk' E; try discriminate. injection E as <- <-. exists ob. auto.
   - destruct (r_ref (o_rec ob)) as [t|] eqn:Er.
     + destruct (cache_get s t) as [s1 g] eqn:EG.
       destruct (cache_get_safe _ (fun _ _ _ _ => I) _ _ _ _ (J_true _ Hcv) EG) as (_ & _ & _ & (Hcv1 & _) & _ & _ & _ & _ & Hr).
       pose proof (stable_cache_get _ _ _ _ EG) as S1.
       destruct g as [[o1|]|].
       * destruct Hr as (ob1 & Ho1 & _). assert (Hne1 : hget s1 o1 <> None) by congruence.
-        destruct (IH _ _ _ _ Hcv1 Hne1 HF) as (A & B & C).
+        destruct (IH _ _ _ _ _ Hcv1 Hne1 HF) as (A & B & C).
         split; [exact A|]. split; [eapply stable_trans; eassumption | exact C].
       * injection HF as <- <-. split; [discriminate|]. split; [exact S1 | discriminate].
       * injection HF as <- <-. split; [discriminate|]. split; [exact S1 | discriminate].
     + injection HF as <- <-. split; [discriminate|]. split; [apply stable_refl|].
-      intros o' E. injection E as <-. exists ob. auto.
+      intros o' lk' E. injection E as <- <-. exists ob. auto.
 Qed.
 
 Lemma create_session_obj s q s' res cks :
@@ -317,18 +317,18 @@ Qed.
 Lemma bookkeep_stable s o q : stable s (hupd s o (fun r => set_ua (set_ip (set_access r (now s)) (q_addr q)) (q_ua q))).
 Proof. apply stable_hupd. intro r. split; reflexivity. Qed.
 
-Lemma start_finish_obj s q o ob isref cks0 s' res cks :
-  (isref = true -> cv s) -> hget s o = Some ob -> isref = is_ref (o_rec ob) -> start_finish s q o isref cks0 = (s', res, cks) ->
+Lemma start_finish_obj s q k o ob isref cks0 s' res cks :
+  (isref = true -> cv s) -> hget s o = Some ob -> isref = is_ref (o_rec ob) -> start_finish s q k o isref cks0 = (s', res, cks) ->
   (forall e, res <> Panic e) /\ stable s s' /\
   (forall o', res = Ok (Some o') -> exists ob', hget s' o' = Some ob' /\ r_ref (o_rec ob') = None).
 Proof.
   intros Hcv Ho Hir HS. unfold start_finish in HS. destruct isref.
-  - destruct (follow (S (N.to_nat (supply s))) s o) as [s2 fr] eqn:EF.
+  - destruct (follow (S (N.to_nat (supply s))) s o k) as [s2 fr] eqn:EF.
     assert (Hne : hget s o <> None) by congruence.
-    destruct (follow_valid _ _ _ _ _ (Hcv eq_refl) Hne EF) as (A & B & C).
-    destruct fr as [o1|e|e]; injection HS as <- <- _.
+    destruct (follow_valid _ _ _ _ _ _ (Hcv eq_refl) Hne EF) as (A & B & C).
+    destruct fr as [[o1 lk1]|e|e]; injection HS as <- <- _.
     + split; [discriminate|]. split; [eapply stable_trans; [exact B | apply bookkeep_stable]|].
-      intros o' E. injection E as <-. destruct (C o1 eq_refl) as (ob1 & Ho1 & Hr1).
+      intros o' E. injection E as <-. destruct (C o1 lk1 eq_refl) as (ob1 & Ho1 & Hr1).
       destruct (bookkeep_stable s2 o1 q _ _ Ho1) as (ob2 & Ho2 & E2 & _). exists ob2. split; [exact Ho2 | congruence].
     + split; [discriminate|]. split; [exact B | discriminate].
     + exfalso. eapply A. reflexivity.
